@@ -20,6 +20,19 @@ def kvNatD (args : List String) (k : String) (d : Nat) : Nat :=
 
 def kvNatO (args : List String) (k : String) : Option Nat := (kvGet args k).bind (·.toNat?)
 
+def pad5 (n : Nat) : String :=
+  let s := toString n
+  String.ofList (List.replicate (5 - s.length) '0') ++ s
+
+/-- the harness's `hidden()` token: in-flight counters and every client's in-flight records — state
+    an op changes without writing a byte, compared at every op -/
+def renderHidden (s : Server) : String :=
+  let cs := sortStrs (s.clients.map fun (_, i) =>
+    let c := getObj s i
+    toHex c.id ++ "=" ++ ",".intercalate (sortStrs (c.inflight.map fun m =>
+      s!"{pad5 m.id}.t{m.type}.q{m.qos}" ++ (if m.type == 3 then "." ++ toHex m.payload ++ ".si" ++ "+".intercalate ((m.subIds.filter (· > 0)).map toString) else ""))))
+  s!"H[{s.info.inflight}/{s.info.inflightDropped}/{s.info.msgsDropped}|{"|".intercalate cs}]"
+
 /-- render the outputs of one op in the harness's format -/
 def renderOuts (st : BkState) (outs : List Out) (sortTailOf : Option Nat) : BkState × String :=
   let conns := st.order
@@ -46,11 +59,7 @@ def renderOuts (st : BkState) (outs : List Out) (sortTailOf : Option Nat) : BkSt
   let out := if closedNow.isEmpty then out else out ++ " X[" ++ ",".intercalate (closedNow.map toString) ++ "]"
   let out := if evs.isEmpty then out else out ++ " E[" ++ ",".intercalate evs ++ "]"
   let out := out.trimAscii.toString
-  ({ st with closedSeen := st.closedSeen ++ closedNow }, if out.isEmpty then "-" else out)
-
-def pad5 (n : Nat) : String :=
-  let s := toString n
-  String.ofList (List.replicate (5 - s.length) '0') ++ s
+  ({ st with closedSeen := st.closedSeen ++ closedNow }, (if out.isEmpty then "-" else out) ++ " " ++ renderHidden st.srv)
 
 def renderClientDump (c : Client) : String :=
   let fl := ",".intercalate (sortStrs (c.inflight.map fun m =>
@@ -93,21 +102,49 @@ def parseInPk (ver : Nat) (a : List String) : Option InPk :=
   | "DISCONNECT" :: kv => some (.disconnect (if ver == 5 then kvNatD kv "rc" 0 else 0) (if ver == 5 then kvNatO kv "sei" else none))
   | _ => none
 
-/-- run one model step; Go's map-iteration choices (delivery order of retained matches, share-group
-    member selection) are resolved to the choice the implementation made: the default resolution
-    first, otherwise the first of the 24 × 27 resolutions whose rendered output equals the
+def factorial : Nat → Nat
+  | 0 => 1
+  | n + 1 => (n + 1) * factorial n
+
+/-- all seeds `Σ dₖ · permBase^k` with `dₖ < radices[k]` -/
+def mixedSeeds : List Nat → List Nat
+  | [] => [0]
+  | r :: rs => (mixedSeeds rs).flatMap fun hi => (List.range r).map fun d => d + permBase * hi
+
+/-- the `permSeed` values that can matter for an op: for a SUBSCRIBE, one independent order per
+    filter that receives retained messages (capped); otherwise only the default -/
+def permCandidates (st : BkState) (op : Op) : List Nat :=
+  match op with
+  | .recv _ (.subscribe _ _ fs) =>
+    let radices := fs.map fun f =>
+      if isSharedFilter f.filter || f.rh == 2 then 1 else factorial (min 7 (messages st.srv.topics f.filter).length)
+    -- the subscriptions are made before the scan, but subscribing never changes what is retained
+    if radices.foldl (· * ·) 1 ≤ 20000 then mixedSeeds radices else (List.range 5040)
+  | _ => [0]
+
+/-- run one model step; Go's map-iteration choices (delivery order of retained matches per filter,
+    share-group member selection and visiting order, the deferred message released next) are resolved
+    to the choice the implementation made: the default resolution first, otherwise the first candidate
+    resolution whose rendered output — packets written and hidden session state — equals the
     implementation's (the theorems hold for every resolution). -/
 def stepSearch (st : BkState) (op : Op) (impl : String) (sortTail : Option Nat) (extraClosed : List Nat := []) :
     BkState × String :=
-  let run (ps pk os : Nat) : BkState × String :=
-    let (srv, outs) := step { st.srv with permSeed := ps, pickSeed := pk, orderSeed := os } op
-    renderOuts { st with srv := { srv with permSeed := 0, pickSeed := 0, orderSeed := 0 }, closedSeen := st.closedSeen ++ extraClosed } outs sortTail
-  let d := run 0 0 0
+  let run (c : Nat × Nat × Nat × Nat) : BkState × String :=
+    let (ps, pk, os, ns) := c
+    let (srv, outs) := step { st.srv with permSeed := ps, pickSeed := pk, orderSeed := os, nextSeed := ns } op
+    renderOuts { st with srv := { srv with permSeed := 0, pickSeed := 0, orderSeed := 0, nextSeed := 0 }, closedSeen := st.closedSeen ++ extraClosed } outs sortTail
+  let d := run (0, 0, 0, 0)
   if d.2 == impl then d else
-  let cheap := (List.range 27).flatMap fun pk => (List.range 6).map fun os => (0, pk, os)
-  let full := (List.range 24).flatMap fun ps => (List.range 27).flatMap fun pk => (List.range 2).map fun os => (ps, pk, os)
-  match (cheap ++ full).find? (fun (ps, pk, os) => (run ps pk os).2 == impl) with
-  | some (ps, pk, os) => run ps pk os
+  let perms := permCandidates st op
+  let cands : List (Nat × Nat × Nat × Nat) :=
+    if perms.length > 1 then
+      (perms.map fun ps => (ps, 0, 0, 0)) ++
+      (if perms.length ≤ 720 then (List.range 5).flatMap fun ns => perms.map fun ps => (ps, 0, 0, ns + 1) else [])
+    else
+      ((List.range 27).flatMap fun pk => (List.range 6).map fun os => (0, pk, os, 0)) ++
+      ((List.range 5).flatMap fun ns => (List.range 27).flatMap fun pk => (List.range 6).map fun os => (0, pk, os, ns + 1))
+  match cands.find? (fun c => (run c).2 == impl) with
+  | some c => run c
   | none => d
 
 def connVer (st : BkState) (conn : Nat) : Nat :=
